@@ -231,3 +231,84 @@ func installMore(m *Machine) {
 		panic("io.ReadAll on an unsupported reader")
 	}
 }
+
+// installBinary: encoding/binary little-endian accessors as intrinsics. A value stored with PutUintN becomes the
+// canonical bytes extract(8i+7, 8i, X); UintN over exactly those bytes gives X back syntactically, so that a
+// checksum written by the code under test and read back compares equal without a solver query.
+func installBinary(m *Machine) {
+	I := m.Intr
+	put := func(n int) func(r *Run, fr *Frame, a []Value) Value {
+		return func(r *Run, fr *Frame, a []Value) Value {
+			b := a[1].(Slice).S
+			if len(b) < n {
+				panic(targetPanic{Str(fmt.Sprintf("index out of range [%d] with length %d", n-1, len(b)))})
+			}
+			v := a[2].(Num)
+			for i := 0; i < n; i++ {
+				if v.T == nil {
+					b[i] = Num{W: 8, C: (v.C >> (8 * uint(i))) & 0xff}
+				} else {
+					b[i] = Num{W: 8, T: r.TT.Extract(8*i+7, 8*i, v.T)}
+				}
+			}
+			return nil
+		}
+	}
+	get := func(n int) func(r *Run, fr *Frame, a []Value) Value {
+		return func(r *Run, fr *Frame, a []Value) Value {
+			b := a[1].(Slice).S
+			if len(b) < n {
+				panic(targetPanic{Str(fmt.Sprintf("index out of range [%d] with length %d", n-1, len(b)))})
+			}
+			w := 8 * n
+			allConc := true
+			var c uint64
+			for i := 0; i < n; i++ {
+				x := b[i].(Num)
+				if x.T != nil {
+					allConc = false
+					break
+				}
+				c |= x.C << (8 * uint(i))
+			}
+			if allConc {
+				return Num{W: w, C: c}
+			}
+			// the bytes of one term, in order?
+			var src *Term
+			ok := true
+			for i := 0; i < n && ok; i++ {
+				x := b[i].(Num)
+				if x.T == nil {
+					ok = false
+					break
+				}
+				t := x.T
+				want := fmt.Sprintf("(_ extract %d %d)", 8*i+7, 8*i)
+				if t.op == want && t.args[0].w == w && (src == nil || src == t.args[0]) {
+					src = t.args[0]
+				} else {
+					ok = false
+				}
+			}
+			if ok && src != nil {
+				return Num{W: w, T: src}
+			}
+			// general case: concatenation, most significant byte first
+			var t *Term
+			for i := n - 1; i >= 0; i-- {
+				bt := r.numTerm(b[i].(Num))
+				if t == nil {
+					t = bt
+				} else {
+					t = r.TT.mk("concat", t.w+8, 0, "", t, bt)
+				}
+			}
+			return Num{W: w, T: t}
+		}
+	}
+	for _, n := range []int{2, 4, 8} {
+		I[fmt.Sprintf("(encoding/binary.littleEndian).PutUint%d", 8*n)] = put(n)
+		I[fmt.Sprintf("(encoding/binary.littleEndian).Uint%d", 8*n)] = get(n)
+	}
+}
